@@ -29,6 +29,8 @@ func init() {
 	register("c17.run", func(a []string) string { return admRun(a) })
 }
 
+const admWait = 6 * time.Second
+
 const admSdp = "v=0\r\no=- 0 0 IN IP4 127.0.0.1\r\ns=No Name\r\nc=IN IP4 127.0.0.1\r\nt=0 0\r\n" +
 	"m=video 0 RTP/AVP 96\r\na=rtpmap:96 H264/90000\r\n" +
 	"a=fmtp:96 packetization-mode=1; sprop-parameter-sets=Z2QAIKzZQMApsBEAAAMAAQAAAwAyDxgxlg==,aOvssiw=; profile-level-id=640020\r\n" +
@@ -412,7 +414,7 @@ func (c *admCase) pushView(stream string, i int) (logic.VerifPushView, bool) {
 }
 
 func (c *admCase) waitPushIdle(stream string, i int) {
-	deadline := time.Now().Add(10 * time.Second)
+	deadline := time.Now().Add(admWait)
 	for {
 		pv, ok := c.pushView(stream, i)
 		if !ok || (!pv.IsPushing && pv.Session == "") {
@@ -427,7 +429,7 @@ func (c *admCase) waitPushIdle(stream string, i int) {
 }
 
 func (c *admCase) waitPullStop(a *admAttempt, from int) {
-	deadline := time.Now().Add(10 * time.Second)
+	deadline := time.Now().Add(admWait)
 	for {
 		c.nh.mu.Lock()
 		found := false
@@ -732,7 +734,7 @@ func (c *admCase) doOp(op string) string {
 			s.conn.release()
 			select {
 			case <-s.done:
-			case <-time.After(10 * time.Second):
+			case <-time.After(admWait):
 				return "timeout"
 			}
 		case "fs":
@@ -755,7 +757,7 @@ func (c *admCase) doOp(op string) string {
 		resp := c.sm.CtrlKickSession(base.ApiCtrlKickSessionReq{StreamName: stream(1), SessionId: key})
 		if resp.ErrorCode == base.ErrorCodeSucc {
 			if s := c.sess[name]; s != nil && s.kind == "pp" {
-				deadline := time.Now().Add(10 * time.Second)
+				deadline := time.Now().Add(admWait)
 				for {
 					v, ok := c.viewOf(stream(1))
 					if !ok || v.PsPub != key {
@@ -801,7 +803,11 @@ func (c *admCase) doOp(op string) string {
 		}
 		return strconv.Itoa(resp.ErrorCode)
 	case "psucc", "pfail", "pdone": // outcome of attempt p<stream>_<i>: psucc.<stream>.<i>
-		a := c.attByName["p"+f[1]+"_"+f[2]]
+		ai := f[2]
+		if ai == "0" { // the latest attempt of that stream
+			ai = strconv.Itoa(c.attCount[stream(1)])
+		}
+		a := c.attByName["p"+f[1]+"_"+ai]
 		if a == nil {
 			return "x"
 		}
@@ -820,7 +826,7 @@ func (c *admCase) doOp(op string) string {
 			// the origin sees the play request
 			select {
 			case a.origin = <-c.originObs.ch:
-			case <-time.After(10 * time.Second):
+			case <-time.After(admWait):
 				return "timeout-origin"
 			}
 			ev, ok := c.nh.waitPull(from, a.stream)
@@ -852,7 +858,7 @@ func (c *admCase) doOp(op string) string {
 			_ = a.origin.Dispose()
 			c.waitPullStop(a, from)
 		}
-		return "-"
+		return a.name
 	case "pushok", "pushfail", "pushdone": // outcome at push target: pushok.<stream>.<target index>
 		k := stream(1) + "|" + f[2]
 		p := c.push[k]
@@ -868,10 +874,10 @@ func (c *admCase) doOp(op string) string {
 			go c.originSrv.VerifHandleTcpConnect(p.conn)
 			select {
 			case p.origin = <-c.originObs.ch:
-			case <-time.After(10 * time.Second):
+			case <-time.After(admWait):
 				return "timeout-target"
 			}
-			deadline := time.Now().Add(10 * time.Second)
+			deadline := time.Now().Add(admWait)
 			p.state = "attached"
 			for {
 				pv, ok := c.pushView(stream(1), ti)
@@ -907,6 +913,9 @@ func (c *admCase) doOp(op string) string {
 		}
 		return "-"
 	case "tick": // tick.<tickCount>
+		if c.disposed { // Dispose made RunLoop, hence the ticker, return
+			return "x"
+		}
 		c.sm.VerifTick(uint32(admInt(f[1])))
 		return "-"
 	case "adv": // adv.<ms>
